@@ -842,11 +842,15 @@ class VM:
                 )
                 js_func._compiled = compiled_func
 
-                # Create prototype object for the function
-                # In JavaScript, every function has a prototype property
-                prototype = JSObject()
-                prototype.set("constructor", js_func)
-                js_func._prototype = prototype
+                if compiled_func.is_arrow:
+                    # An arrow function uses the this of the code that created it
+                    js_func._bound_this = frame.this_value
+                else:
+                    # Create prototype object for the function
+                    # In JavaScript, every function has a prototype property
+                    prototype = JSObject()
+                    prototype.set("constructor", js_func)
+                    js_func._prototype = prototype
 
                 # Capture closure cells for free variables
                 if compiled_func.free_vars:
@@ -1534,11 +1538,15 @@ class VM:
             """Create a bound function with fixed this and optional partial args."""
             bound_this = args[0] if args else UNDEFINED
             bound_args = list(args[1:]) if len(args) > 1 else []
+            if hasattr(func, "_bound_this"):
+                # Already bound (or an arrow function): this cannot be re-bound
+                bound_this = func._bound_this
+            bound_args = list(getattr(func, "_bound_args", [])) + bound_args
 
             # Create a new function that wraps the original
             bound_func = JSFunction(
                 name=func.name,
-                params=func.params[
+                params=getattr(func, "_original_func", func).params[
                     len(bound_args) :
                 ],  # Remaining params after bound args
                 bytecode=func.bytecode,
@@ -1552,7 +1560,7 @@ class VM:
             # Store binding info on the function
             bound_func._bound_this = bound_this
             bound_func._bound_args = bound_args
-            bound_func._original_func = func
+            bound_func._original_func = getattr(func, "_original_func", func)
             return bound_func
 
         def call_fn(*args):
@@ -2547,6 +2555,9 @@ class VM:
         constructor = self.stack.pop()
 
         if isinstance(constructor, JSFunction):
+            target = getattr(constructor, "_original_func", constructor)
+            if getattr(getattr(target, "_compiled", None), "is_arrow", False):
+                raise JSTypeError("Arrow functions cannot be used as constructors")
             # Create new object
             obj = JSObject()
             # Set prototype from constructor's prototype property
